@@ -731,6 +731,119 @@ def jacobian_utpm_check(rep, seed):
             rep.violation("jacobian(UTPM) raises " + type(ex).__name__, {"what": repr(ex)[-300:]})
 
 
+def adjoint_programs(algopy):
+    """(name, f) pairs: scalar-valued programs of 4 inputs over the whole differentiable API (shared by C03, C12)"""
+    W22 = numpy.array([[1., 2.], [3., 5.]]); W2 = numpy.array([2., -1.])
+    A0 = numpy.array([[3., 1.], [1., 4.]])
+    return [
+        ("sum_axis0", lambda x: algopy.sum(algopy.sum(algopy.reshape(x, (2, 2)) * algopy.reshape(x, (2, 2)), axis=0) * W2)),
+        ("sum_axis1", lambda x: algopy.sum(algopy.sum(algopy.reshape(x * x, (2, 2)), axis=1) * W2)),
+        ("sum_axis-1", lambda x: algopy.sum(algopy.sum(algopy.reshape(x * x, (2, 2)), axis=-1) * W2)),
+        ("outer", lambda x: algopy.sum(algopy.outer(x[:2] * x[:2], x[1:] * x[1:] * x[1:]) * numpy.array([[1., 2., 3.], [5., 7., 11.]]))),
+        ("dot_mm", lambda x: algopy.sum(algopy.dot(algopy.reshape(x, (2, 2)), algopy.reshape(x * x, (2, 2))) * W22)),
+        ("dot_vv", lambda x: algopy.dot(x, x * x)),
+        ("inv", lambda x: algopy.sum(algopy.inv(algopy.reshape(x, (2, 2)) + A0) * W22)),
+        ("solve", lambda x: algopy.sum(algopy.solve(algopy.reshape(x, (2, 2)) + A0, algopy.reshape(x * x, (2, 2))) * W22)),
+        ("det", lambda x: algopy.det(algopy.reshape(x, (2, 2)) + A0)),
+        ("logdet", lambda x: algopy.logdet(algopy.reshape(x, (2, 2)) + A0)),
+        ("trace", lambda x: algopy.trace(algopy.dot(algopy.reshape(x, (2, 2)), algopy.reshape(x, (2, 2))))),
+        ("transpose", lambda x: algopy.sum(algopy.dot(algopy.reshape(x, (2, 2)).T, algopy.reshape(x * x, (2, 2))) * W22)),
+        ("reshape_view", lambda x: algopy.sum(algopy.reshape(x * x, (2, 2)) * W22)),
+        ("getitem_slices", lambda x: algopy.sum(x[::-1][1:] * x[:-1] * numpy.array([1., 2., 3.]))),
+        ("pow_neg", lambda x: algopy.sum(x ** -2 * numpy.array([1., 2., 3., 4.]))),
+        ("pow_real", lambda x: algopy.sum((x * x + 1.) ** 1.5)),
+        ("div_const_left", lambda x: algopy.sum(2. / (x * x + 1.))),
+        ("sub_const_left", lambda x: algopy.sum((3. - x) * x)),
+        ("broadcast_mul_arr", lambda x: algopy.sum(algopy.reshape(x, (2, 2))[0] * numpy.array([[1., 2.], [3., 4.], [5., 6.]]))),
+        ("broadcast_scalar", lambda x: algopy.sum(x[0] * x * x[1])),
+        ("qr", lambda x: (lambda QR: algopy.sum(QR[1] * W22) + algopy.sum(QR[0] * W22.T))(algopy.qr(algopy.reshape(x, (2, 2)) + A0))),
+        ("cholesky", lambda x: (lambda A: algopy.sum(algopy.cholesky(algopy.dot(A, A.T) + A0) * W22))(algopy.reshape(x, (2, 2)))),
+        ("eigh", lambda x: (lambda A: algopy.sum(algopy.eigh(A + A.T + numpy.array([[3., 0.], [0., -4.]]))[0] * W2))(algopy.reshape(x, (2, 2)))),
+        ("svd", lambda x: algopy.sum(algopy.svd(algopy.reshape(x, (2, 2)) + A0)[1] * W2)),
+        ("diag", lambda x: algopy.sum(algopy.dot(algopy.diag(x[:2]), algopy.reshape(x, (2, 2))) * W22)),
+        ("symvec", lambda x: (lambda A: algopy.sum(algopy.symvec(A + A.T) * numpy.array([1., 2., 3.])))(algopy.reshape(x * x, (2, 2)))),
+        ("prod", lambda x: algopy.prod(x)),
+        ("buffer", lambda x: T_buffer(algopy, x)),
+        ("reshape_of_slice_view", lambda x: algopy.sum(algopy.reshape(algopy.reshape(x * x, (2, 2))[:, 0:1], (2, 1, 1)) * numpy.array([[[2.]], [[3.]]]))),
+        ("reshape_of_strided_view", lambda x: algopy.sum(algopy.reshape((x * x)[::2], (1, 2)) * numpy.array([[2., 3.]]))),
+        ("const_dot_x", lambda x: algopy.sum(algopy.dot(W22, algopy.reshape(x * x, (2, 2))) * W22.T)),
+        ("x_dot_const", lambda x: algopy.sum(algopy.dot(algopy.reshape(x * x, (2, 2)), W22) * W22.T)),
+        ("const_dot_vec", lambda x: algopy.sum(algopy.dot(W22, x[:2] * x[2:]) * W2)),
+        ("eigh_vectors", lambda x: (lambda A: algopy.sum(algopy.eigh(A + A.T + numpy.array([[3., 0.], [0., -4.]]))[1] * W22))(algopy.reshape(x, (2, 2)))),
+        ("eig_values", lambda x: algopy.sum(algopy.real(algopy.eig(algopy.reshape(x, (2, 2)) + numpy.array([[3., 1.], [0.5, -1.]]))[0]) * W2)),
+        ("lu_factors", lambda x: (lambda WLU: algopy.sum(WLU[1] * W22) + algopy.sum(WLU[2] * W22.T))(algopy.lu(algopy.reshape(x, (2, 2)) + numpy.array([[0.1, 2.], [3., 0.2]])))),
+        ("cholesky_solve", lambda x: (lambda A: algopy.sum(algopy.solve(algopy.cholesky(algopy.dot(A, A.T) + numpy.array([[3., 1.], [1., 4.]])), A) * W22))(algopy.reshape(x, (2, 2)))),
+        ("qr_tall", lambda x: (lambda QR: algopy.sum(QR[1] * numpy.array([[1., 2.], [0., 3.]])) + algopy.sum(QR[0] * numpy.arange(1., 7.).reshape(3, 2)))(algopy.qr(algopy.reshape(algopy.tile(x, 2)[:6], (3, 2)) + numpy.array([[2., 0.], [0., 3.], [1., 1.]])))),
+        ("qr_wide", lambda x: (lambda QR: algopy.sum(QR[1] * numpy.arange(1., 7.).reshape(2, 3)))(algopy.qr(algopy.reshape(algopy.tile(x, 2)[:6], (2, 3)) + numpy.array([[2., 0., 1.], [0., 3., 1.]])))),
+        ("qr_full", lambda x: (lambda QR: algopy.sum(QR[1] * numpy.arange(1., 7.).reshape(3, 2)))(algopy.qr_full(algopy.reshape(algopy.tile(x, 2)[:6], (3, 2)) + numpy.array([[2., 0.], [0., 3.], [1., 1.]])))),
+        ("solve_const_rhs", lambda x: algopy.sum(algopy.solve(algopy.reshape(x, (2, 2)) + A0, W22) * W22.T)),
+        ("solve_const_matrix", lambda x: algopy.sum(algopy.solve(A0, algopy.reshape(x * x, (2, 2))) * W22.T)),
+        ("inv_nonsymmetric", lambda x: algopy.sum(algopy.inv(algopy.reshape(x, (2, 2)) * numpy.array([[1., 2.], [-1., 1.]]) + numpy.array([[3., 1.], [-1., 2.]])) * W22)),
+        ("logdet_negative_det", lambda x: algopy.logdet(algopy.reshape(x, (2, 2)) * 0.1 + numpy.array([[0., 2.], [3., 0.]])) * algopy.sum(x)),
+        ("trace_of_product", lambda x: algopy.trace(algopy.dot(algopy.reshape(x, (2, 2)).T, algopy.reshape(x * x, (2, 2))))),
+        ("symvec_L", lambda x: (lambda A: algopy.sum(algopy.symvec(A, 'L') * numpy.array([1., 2., 3.])))(algopy.reshape(x * x, (2, 2)))),
+        ("symvec_U", lambda x: (lambda A: algopy.sum(algopy.symvec(A, 'U') * numpy.array([1., 2., 3.])))(algopy.reshape(x * x, (2, 2)))),
+        ("vecsym", lambda x: algopy.sum(algopy.dot(algopy.vecsym(x[:3] * x[1:]), algopy.vecsym(x[:3])) * W22)),
+        ("sum_negative_axis", lambda x: algopy.sum(algopy.sum(algopy.reshape(x * x, (2, 2)), axis=-2) * W2)),
+        ("tile_2d", lambda x: algopy.sum(algopy.tile(algopy.reshape(x * x, (2, 2)), (2, 1)) * numpy.arange(1., 9.).reshape(4, 2))),
+        ("fft_axis0", lambda x: algopy.sum(algopy.real(algopy.fft.ifft(algopy.fft.fft(algopy.reshape(x * x, (2, 2)), axis=0) * W22, axis=0)) * W22.T)),
+        ("imag_of_fft", lambda x: algopy.sum(algopy.imag(algopy.fft.fft(x * x)) * numpy.array([1., 2., 3., 4.]))),
+        ("conjugate_fft", lambda x: algopy.sum(algopy.real(algopy.conjugate(algopy.fft.fft(x * x)) * algopy.fft.fft(x)) * numpy.array([1., 2., 3., 4.]))),
+        ("getitem_newaxis", lambda x: algopy.sum(x[None, :] * numpy.array([[1., 2., 3., 4.], [0., 1., 0., 2.]]) * x[::-1][None])),
+        ("setitem_slices", lambda x: T_setslices(algopy, x)),
+        ("reciprocal_square", lambda x: algopy.sum(algopy.reciprocal(algopy.square(x) + 1.) * algopy.absolute(x - 0.75))),
+        ("expm1_log1p", lambda x: algopy.sum(algopy.expm1(x) * algopy.log1p(x))),
+        ("negative_sign", lambda x: algopy.sum(algopy.negative(x) * algopy.sign(x - 0.75) * x)),
+        ("special2", lambda x: algopy.sum(algopy.special.gammaln(x + 1.) * algopy.special.psi(x + 0.5) + algopy.special.erfi(x * 0.5) + algopy.special.logit(x * 0.5))),
+        ("polygamma_hyperu", lambda x: algopy.sum(algopy.special.polygamma(1, x + 0.5) + algopy.special.hyperu(1., 1.5, x + 0.5))),
+        ("botched_clip", lambda x: algopy.sum(algopy.special.botched_clip(0.5, 1.0, x) * x)),
+        ("div_bcast_cols", lambda x: algopy.sum(algopy.reshape(x, (2, 2)) / (algopy.reshape(x, (2, 2))[:, 0:1] + 2.))),
+        ("transposed_operands", lambda x: algopy.sum((algopy.reshape(x, (2, 2)).T * algopy.reshape(x * x, (2, 2))) / (algopy.reshape(x, (2, 2)).T + 2.))),
+        ("dot_mv", lambda x: algopy.sum(algopy.dot(algopy.reshape(x, (2, 2)), x[:2] * x[:2]) * W2)),
+        ("dot_vm", lambda x: algopy.sum(algopy.dot(x[:2] * x[:2], algopy.reshape(x, (2, 2))) * W2)),
+        ("reshape_noncontiguous", lambda x: algopy.sum(algopy.reshape(algopy.reshape(x * x, (2, 2)).T, (4,)) * numpy.array([1., 2., 3., 4.]))),
+        ("tile", lambda x: algopy.sum(algopy.tile(x[:2] * x[:2], 2) * numpy.array([1., 2., 3., 4.]))),
+        ("fft_ifft", lambda x: algopy.sum(algopy.real(algopy.fft.ifft(algopy.fft.fft(x * x) * numpy.array([1., 2., 3., 4.]))) * numpy.array([1., 2., 3., 4.]))),
+        ("ifft_real", lambda x: algopy.sum(algopy.real(algopy.fft.ifft(x * x)) * numpy.array([1., 2., 3., 4.]))),
+        ("det_mixed_pivots", lambda x: algopy.det(algopy.reshape(x, (2, 2)))),
+        ("logdet_mixed_pivots", lambda x: algopy.logdet(algopy.dot(algopy.reshape(x, (2, 2)), numpy.array([[1., 0.], [0., -1.]])))),
+        ("det_pivot", lambda x: algopy.det(algopy.reshape(x, (2, 2)) * numpy.array([[0.1, 1.], [1., 0.1]]) + numpy.array([[0., 2.], [3., 0.]]))),
+        ("logdet3", lambda x: algopy.logdet(algopy.dot(algopy.reshape(x, (2, 2)), algopy.reshape(x, (2, 2)).T) + A0)),
+        ("mul_const_bigger", lambda x: algopy.sum(x[:2] * numpy.array([[1., 2.], [3., 4.], [5., 6.]]) * x[:2])),
+        ("const_bigger_mul", lambda x: algopy.sum(numpy.array([[1., 2.], [3., 4.], [5., 6.]]) * (x[:2] * x[2:]))),
+        ("add_const_bigger", lambda x: algopy.sum((x[:2] + numpy.array([[1., 2.], [3., 4.], [5., 6.]])) * (x[:2] - numpy.array([[1.], [3.], [5.]])))),
+        ("div_both", lambda x: algopy.sum((x * x) / (x[::-1] + 2.))),
+        ("div_const_bigger", lambda x: algopy.sum(x[:2] / numpy.array([[1., 2.], [3., 4.], [5., 6.]]) + numpy.array([[1., 2.], [3., 4.], [5., 6.]]) / x[2:])),
+        ("special", lambda x: algopy.sum(algopy.special.erf(x) * algopy.special.expit(x) + algopy.special.dawsn(x))),
+        ("elementary", lambda x: algopy.sum(algopy.exp(algopy.sin(x)) * algopy.log(x * x + 1.) + algopy.sqrt(x * x + 2.) * algopy.tan(x * 0.5) + algopy.cos(x))),
+        # reshape / flatten of intermediates that own their data in a transposed layout
+        ("reshape_scaled_transpose", lambda x: algopy.sum(algopy.reshape(2.0 * algopy.reshape(x * x, (2, 2)).T, (4,)) * numpy.array([1., 2., 3., 4.]))),
+        ("reshape_sum_of_transposes", lambda x: (lambda X: algopy.sum(algopy.reshape(X.T + (X * X).T, (4,)) * numpy.array([1., 2., 3., 4.])))(algopy.reshape(x, (2, 2)))),
+        ("reshape_transpose_times_const", lambda x: (lambda X: algopy.sum(algopy.reshape(X.T * W22, (1, 4)) * numpy.array([[1., 2., 3., 4.]])))(algopy.reshape(x * x, (2, 2)))),
+        # every broadcasting direction of the binary operators between traced operands (the smaller operand's adjoint is a sum)
+        ("div_num_scalar_over_vec", lambda x: algopy.sum((x[0] * x[1]) / (x * x + 1.))),
+        ("div_num_row_over_mat", lambda x: algopy.sum((x[:2] * x[2:]) / (algopy.reshape(x, (2, 2)) + 2.) * W22)),
+        ("div_num_col_over_mat", lambda x: algopy.sum(algopy.reshape(x[:2] * x[2:], (2, 1)) / (algopy.reshape(x, (2, 2)) + 2.) * W22)),
+        ("mul_scalar_times_mat", lambda x: algopy.sum((x[0] * x[3]) * algopy.reshape(x * x, (2, 2)) * W22 + algopy.reshape(x, (2, 2)) * (x[1] * x[2]))),
+        ("sub_row_minus_mat", lambda x: algopy.sum(((x[:2] * x[2:]) - algopy.reshape(x * x, (2, 2))) * ((x[1] * x[1]) + algopy.reshape(x, (2, 2))) * W22)),
+        # a plain array as the left / right operand of dot, matrix and vector forms
+        ("dot_constM_M", lambda x: algopy.sum(algopy.dot(W22, algopy.reshape(x * x, (2, 2))) * W22.T)),
+        ("dot_M_constM", lambda x: algopy.sum(algopy.dot(algopy.reshape(x * x, (2, 2)), W22) * W22.T)),
+        ("dot_constM_v", lambda x: algopy.sum(algopy.dot(W22, x[:2] * x[2:]) * W2)),
+        ("dot_v_constM", lambda x: algopy.sum(algopy.dot(x[:2] * x[2:], W22) * W2)),
+        ("dot_constv_v", lambda x: algopy.dot(W2, x[:2] * x[2:]) * x[0]),
+        ("dot_v_constv", lambda x: algopy.dot(x[:2] * x[2:], W2) * x[3]),
+        ("dot_constv_M", lambda x: algopy.sum(algopy.dot(W2, algopy.reshape(x * x, (2, 2))) * W2)),
+        # the same node as both arguments of a binary function (both adjoints accumulate into one buffer)
+        ("dot_same_node", lambda x: (lambda M: algopy.sum(algopy.dot(M, M) * W22))(algopy.reshape(x, (2, 2)) + A0)),
+        ("dot_vv_same_node", lambda x: (lambda v: algopy.dot(v, v))(x * x + 1.)),
+        ("outer_same_node", lambda x: (lambda v: algopy.sum(algopy.outer(v, v) * numpy.array([[1., 2., 3., 4.], [5., 6., 7., 8.], [9., 10., 11., 12.], [13., 14., 15., 17.]])))(x * x)),
+        ("solve_same_node", lambda x: (lambda M: algopy.sum(algopy.solve(M, M) * W22) + algopy.sum(M))(algopy.reshape(x, (2, 2)) + A0)),
+        ("div_same_node", lambda x: (lambda v: algopy.sum(v / v + v * v - v + (v - v)))(x * x + 1.)),
+        ("pow_same_node", lambda x: (lambda v: algopy.sum(v ** v))(x * x + 0.5)),
+    ]
+
+
 def full_api_adjoint(rep, seed, n=80):
     """Dot-product identity on programs over the whole differentiable API (relational fragment):
     <xbar(t), v(t)> = <ybar(t), F'(x(t)) v(t)> mod t^D with F'(x(t))v(t) from forward mode: the coefficient of t^(D-1+1)...
@@ -744,121 +857,13 @@ def full_api_adjoint(rep, seed, n=80):
     rnd = random.Random(seed + 7)
     W22 = numpy.array([[1., 2.], [3., 5.]]); W2 = numpy.array([2., -1.])
 
-    def progs():
-        A0 = numpy.array([[3., 1.], [1., 4.]])
-        return [
-            ("sum_axis0", lambda x: algopy.sum(algopy.sum(algopy.reshape(x, (2, 2)) * algopy.reshape(x, (2, 2)), axis=0) * W2)),
-            ("sum_axis1", lambda x: algopy.sum(algopy.sum(algopy.reshape(x * x, (2, 2)), axis=1) * W2)),
-            ("sum_axis-1", lambda x: algopy.sum(algopy.sum(algopy.reshape(x * x, (2, 2)), axis=-1) * W2)),
-            ("outer", lambda x: algopy.sum(algopy.outer(x[:2] * x[:2], x[1:] * x[1:] * x[1:]) * numpy.array([[1., 2., 3.], [5., 7., 11.]]))),
-            ("dot_mm", lambda x: algopy.sum(algopy.dot(algopy.reshape(x, (2, 2)), algopy.reshape(x * x, (2, 2))) * W22)),
-            ("dot_vv", lambda x: algopy.dot(x, x * x)),
-            ("inv", lambda x: algopy.sum(algopy.inv(algopy.reshape(x, (2, 2)) + A0) * W22)),
-            ("solve", lambda x: algopy.sum(algopy.solve(algopy.reshape(x, (2, 2)) + A0, algopy.reshape(x * x, (2, 2))) * W22)),
-            ("det", lambda x: algopy.det(algopy.reshape(x, (2, 2)) + A0)),
-            ("logdet", lambda x: algopy.logdet(algopy.reshape(x, (2, 2)) + A0)),
-            ("trace", lambda x: algopy.trace(algopy.dot(algopy.reshape(x, (2, 2)), algopy.reshape(x, (2, 2))))),
-            ("transpose", lambda x: algopy.sum(algopy.dot(algopy.reshape(x, (2, 2)).T, algopy.reshape(x * x, (2, 2))) * W22)),
-            ("reshape_view", lambda x: algopy.sum(algopy.reshape(x * x, (2, 2)) * W22)),
-            ("getitem_slices", lambda x: algopy.sum(x[::-1][1:] * x[:-1] * numpy.array([1., 2., 3.]))),
-            ("pow_neg", lambda x: algopy.sum(x ** -2 * numpy.array([1., 2., 3., 4.]))),
-            ("pow_real", lambda x: algopy.sum((x * x + 1.) ** 1.5)),
-            ("div_const_left", lambda x: algopy.sum(2. / (x * x + 1.))),
-            ("sub_const_left", lambda x: algopy.sum((3. - x) * x)),
-            ("broadcast_mul_arr", lambda x: algopy.sum(algopy.reshape(x, (2, 2))[0] * numpy.array([[1., 2.], [3., 4.], [5., 6.]]))),
-            ("broadcast_scalar", lambda x: algopy.sum(x[0] * x * x[1])),
-            ("qr", lambda x: (lambda QR: algopy.sum(QR[1] * W22) + algopy.sum(QR[0] * W22.T))(algopy.qr(algopy.reshape(x, (2, 2)) + A0))),
-            ("cholesky", lambda x: (lambda A: algopy.sum(algopy.cholesky(algopy.dot(A, A.T) + A0) * W22))(algopy.reshape(x, (2, 2)))),
-            ("eigh", lambda x: (lambda A: algopy.sum(algopy.eigh(A + A.T + numpy.array([[3., 0.], [0., -4.]]))[0] * W2))(algopy.reshape(x, (2, 2)))),
-            ("svd", lambda x: algopy.sum(algopy.svd(algopy.reshape(x, (2, 2)) + A0)[1] * W2)),
-            ("diag", lambda x: algopy.sum(algopy.dot(algopy.diag(x[:2]), algopy.reshape(x, (2, 2))) * W22)),
-            ("symvec", lambda x: (lambda A: algopy.sum(algopy.symvec(A + A.T) * numpy.array([1., 2., 3.])))(algopy.reshape(x * x, (2, 2)))),
-            ("prod", lambda x: algopy.prod(x)),
-            ("buffer", lambda x: T_buffer(algopy, x)),
-            ("reshape_of_slice_view", lambda x: algopy.sum(algopy.reshape(algopy.reshape(x * x, (2, 2))[:, 0:1], (2, 1, 1)) * numpy.array([[[2.]], [[3.]]]))),
-            ("reshape_of_strided_view", lambda x: algopy.sum(algopy.reshape((x * x)[::2], (1, 2)) * numpy.array([[2., 3.]]))),
-            ("const_dot_x", lambda x: algopy.sum(algopy.dot(W22, algopy.reshape(x * x, (2, 2))) * W22.T)),
-            ("x_dot_const", lambda x: algopy.sum(algopy.dot(algopy.reshape(x * x, (2, 2)), W22) * W22.T)),
-            ("const_dot_vec", lambda x: algopy.sum(algopy.dot(W22, x[:2] * x[2:]) * W2)),
-            ("eigh_vectors", lambda x: (lambda A: algopy.sum(algopy.eigh(A + A.T + numpy.array([[3., 0.], [0., -4.]]))[1] * W22))(algopy.reshape(x, (2, 2)))),
-            ("eig_values", lambda x: algopy.sum(algopy.real(algopy.eig(algopy.reshape(x, (2, 2)) + numpy.array([[3., 1.], [0.5, -1.]]))[0]) * W2)),
-            ("lu_factors", lambda x: (lambda WLU: algopy.sum(WLU[1] * W22) + algopy.sum(WLU[2] * W22.T))(algopy.lu(algopy.reshape(x, (2, 2)) + numpy.array([[0.1, 2.], [3., 0.2]])))),
-            ("cholesky_solve", lambda x: (lambda A: algopy.sum(algopy.solve(algopy.cholesky(algopy.dot(A, A.T) + numpy.array([[3., 1.], [1., 4.]])), A) * W22))(algopy.reshape(x, (2, 2)))),
-            ("qr_tall", lambda x: (lambda QR: algopy.sum(QR[1] * numpy.array([[1., 2.], [0., 3.]])) + algopy.sum(QR[0] * numpy.arange(1., 7.).reshape(3, 2)))(algopy.qr(algopy.reshape(algopy.tile(x, 2)[:6], (3, 2)) + numpy.array([[2., 0.], [0., 3.], [1., 1.]])))),
-            ("qr_wide", lambda x: (lambda QR: algopy.sum(QR[1] * numpy.arange(1., 7.).reshape(2, 3)))(algopy.qr(algopy.reshape(algopy.tile(x, 2)[:6], (2, 3)) + numpy.array([[2., 0., 1.], [0., 3., 1.]])))),
-            ("qr_full", lambda x: (lambda QR: algopy.sum(QR[1] * numpy.arange(1., 7.).reshape(3, 2)))(algopy.qr_full(algopy.reshape(algopy.tile(x, 2)[:6], (3, 2)) + numpy.array([[2., 0.], [0., 3.], [1., 1.]])))),
-            ("solve_const_rhs", lambda x: algopy.sum(algopy.solve(algopy.reshape(x, (2, 2)) + A0, W22) * W22.T)),
-            ("solve_const_matrix", lambda x: algopy.sum(algopy.solve(A0, algopy.reshape(x * x, (2, 2))) * W22.T)),
-            ("inv_nonsymmetric", lambda x: algopy.sum(algopy.inv(algopy.reshape(x, (2, 2)) * numpy.array([[1., 2.], [-1., 1.]]) + numpy.array([[3., 1.], [-1., 2.]])) * W22)),
-            ("logdet_negative_det", lambda x: algopy.logdet(algopy.reshape(x, (2, 2)) * 0.1 + numpy.array([[0., 2.], [3., 0.]])) * algopy.sum(x)),
-            ("trace_of_product", lambda x: algopy.trace(algopy.dot(algopy.reshape(x, (2, 2)).T, algopy.reshape(x * x, (2, 2))))),
-            ("symvec_L", lambda x: (lambda A: algopy.sum(algopy.symvec(A, 'L') * numpy.array([1., 2., 3.])))(algopy.reshape(x * x, (2, 2)))),
-            ("symvec_U", lambda x: (lambda A: algopy.sum(algopy.symvec(A, 'U') * numpy.array([1., 2., 3.])))(algopy.reshape(x * x, (2, 2)))),
-            ("vecsym", lambda x: algopy.sum(algopy.dot(algopy.vecsym(x[:3] * x[1:]), algopy.vecsym(x[:3])) * W22)),
-            ("sum_negative_axis", lambda x: algopy.sum(algopy.sum(algopy.reshape(x * x, (2, 2)), axis=-2) * W2)),
-            ("tile_2d", lambda x: algopy.sum(algopy.tile(algopy.reshape(x * x, (2, 2)), (2, 1)) * numpy.arange(1., 9.).reshape(4, 2))),
-            ("fft_axis0", lambda x: algopy.sum(algopy.real(algopy.fft.ifft(algopy.fft.fft(algopy.reshape(x * x, (2, 2)), axis=0) * W22, axis=0)) * W22.T)),
-            ("imag_of_fft", lambda x: algopy.sum(algopy.imag(algopy.fft.fft(x * x)) * numpy.array([1., 2., 3., 4.]))),
-            ("conjugate_fft", lambda x: algopy.sum(algopy.real(algopy.conjugate(algopy.fft.fft(x * x)) * algopy.fft.fft(x)) * numpy.array([1., 2., 3., 4.]))),
-            ("getitem_newaxis", lambda x: algopy.sum(x[None, :] * numpy.array([[1., 2., 3., 4.], [0., 1., 0., 2.]]) * x[::-1][None])),
-            ("setitem_slices", lambda x: T_setslices(algopy, x)),
-            ("reciprocal_square", lambda x: algopy.sum(algopy.reciprocal(algopy.square(x) + 1.) * algopy.absolute(x - 0.75))),
-            ("expm1_log1p", lambda x: algopy.sum(algopy.expm1(x) * algopy.log1p(x))),
-            ("negative_sign", lambda x: algopy.sum(algopy.negative(x) * algopy.sign(x - 0.75) * x)),
-            ("special2", lambda x: algopy.sum(algopy.special.gammaln(x + 1.) * algopy.special.psi(x + 0.5) + algopy.special.erfi(x * 0.5) + algopy.special.logit(x * 0.5))),
-            ("polygamma_hyperu", lambda x: algopy.sum(algopy.special.polygamma(1, x + 0.5) + algopy.special.hyperu(1., 1.5, x + 0.5))),
-            ("botched_clip", lambda x: algopy.sum(algopy.special.botched_clip(0.5, 1.0, x) * x)),
-            ("div_bcast_cols", lambda x: algopy.sum(algopy.reshape(x, (2, 2)) / (algopy.reshape(x, (2, 2))[:, 0:1] + 2.))),
-            ("transposed_operands", lambda x: algopy.sum((algopy.reshape(x, (2, 2)).T * algopy.reshape(x * x, (2, 2))) / (algopy.reshape(x, (2, 2)).T + 2.))),
-            ("dot_mv", lambda x: algopy.sum(algopy.dot(algopy.reshape(x, (2, 2)), x[:2] * x[:2]) * W2)),
-            ("dot_vm", lambda x: algopy.sum(algopy.dot(x[:2] * x[:2], algopy.reshape(x, (2, 2))) * W2)),
-            ("reshape_noncontiguous", lambda x: algopy.sum(algopy.reshape(algopy.reshape(x * x, (2, 2)).T, (4,)) * numpy.array([1., 2., 3., 4.]))),
-            ("tile", lambda x: algopy.sum(algopy.tile(x[:2] * x[:2], 2) * numpy.array([1., 2., 3., 4.]))),
-            ("fft_ifft", lambda x: algopy.sum(algopy.real(algopy.fft.ifft(algopy.fft.fft(x * x) * numpy.array([1., 2., 3., 4.]))) * numpy.array([1., 2., 3., 4.]))),
-            ("ifft_real", lambda x: algopy.sum(algopy.real(algopy.fft.ifft(x * x)) * numpy.array([1., 2., 3., 4.]))),
-            ("det_mixed_pivots", lambda x: algopy.det(algopy.reshape(x, (2, 2)))),
-            ("logdet_mixed_pivots", lambda x: algopy.logdet(algopy.dot(algopy.reshape(x, (2, 2)), numpy.array([[1., 0.], [0., -1.]])))),
-            ("det_pivot", lambda x: algopy.det(algopy.reshape(x, (2, 2)) * numpy.array([[0.1, 1.], [1., 0.1]]) + numpy.array([[0., 2.], [3., 0.]]))),
-            ("logdet3", lambda x: algopy.logdet(algopy.dot(algopy.reshape(x, (2, 2)), algopy.reshape(x, (2, 2)).T) + A0)),
-            ("mul_const_bigger", lambda x: algopy.sum(x[:2] * numpy.array([[1., 2.], [3., 4.], [5., 6.]]) * x[:2])),
-            ("const_bigger_mul", lambda x: algopy.sum(numpy.array([[1., 2.], [3., 4.], [5., 6.]]) * (x[:2] * x[2:]))),
-            ("add_const_bigger", lambda x: algopy.sum((x[:2] + numpy.array([[1., 2.], [3., 4.], [5., 6.]])) * (x[:2] - numpy.array([[1.], [3.], [5.]])))),
-            ("div_both", lambda x: algopy.sum((x * x) / (x[::-1] + 2.))),
-            ("div_const_bigger", lambda x: algopy.sum(x[:2] / numpy.array([[1., 2.], [3., 4.], [5., 6.]]) + numpy.array([[1., 2.], [3., 4.], [5., 6.]]) / x[2:])),
-            ("special", lambda x: algopy.sum(algopy.special.erf(x) * algopy.special.expit(x) + algopy.special.dawsn(x))),
-            ("elementary", lambda x: algopy.sum(algopy.exp(algopy.sin(x)) * algopy.log(x * x + 1.) + algopy.sqrt(x * x + 2.) * algopy.tan(x * 0.5) + algopy.cos(x))),
-            # reshape / flatten of intermediates that own their data in a transposed layout
-            ("reshape_scaled_transpose", lambda x: algopy.sum(algopy.reshape(2.0 * algopy.reshape(x * x, (2, 2)).T, (4,)) * numpy.array([1., 2., 3., 4.]))),
-            ("reshape_sum_of_transposes", lambda x: (lambda X: algopy.sum(algopy.reshape(X.T + (X * X).T, (4,)) * numpy.array([1., 2., 3., 4.])))(algopy.reshape(x, (2, 2)))),
-            ("reshape_transpose_times_const", lambda x: (lambda X: algopy.sum(algopy.reshape(X.T * W22, (1, 4)) * numpy.array([[1., 2., 3., 4.]])))(algopy.reshape(x * x, (2, 2)))),
-            # every broadcasting direction of the binary operators between traced operands (the smaller operand's adjoint is a sum)
-            ("div_num_scalar_over_vec", lambda x: algopy.sum((x[0] * x[1]) / (x * x + 1.))),
-            ("div_num_row_over_mat", lambda x: algopy.sum((x[:2] * x[2:]) / (algopy.reshape(x, (2, 2)) + 2.) * W22)),
-            ("div_num_col_over_mat", lambda x: algopy.sum(algopy.reshape(x[:2] * x[2:], (2, 1)) / (algopy.reshape(x, (2, 2)) + 2.) * W22)),
-            ("mul_scalar_times_mat", lambda x: algopy.sum((x[0] * x[3]) * algopy.reshape(x * x, (2, 2)) * W22 + algopy.reshape(x, (2, 2)) * (x[1] * x[2]))),
-            ("sub_row_minus_mat", lambda x: algopy.sum(((x[:2] * x[2:]) - algopy.reshape(x * x, (2, 2))) * ((x[1] * x[1]) + algopy.reshape(x, (2, 2))) * W22)),
-            # a plain array as the left / right operand of dot, matrix and vector forms
-            ("dot_constM_M", lambda x: algopy.sum(algopy.dot(W22, algopy.reshape(x * x, (2, 2))) * W22.T)),
-            ("dot_M_constM", lambda x: algopy.sum(algopy.dot(algopy.reshape(x * x, (2, 2)), W22) * W22.T)),
-            ("dot_constM_v", lambda x: algopy.sum(algopy.dot(W22, x[:2] * x[2:]) * W2)),
-            ("dot_v_constM", lambda x: algopy.sum(algopy.dot(x[:2] * x[2:], W22) * W2)),
-            ("dot_constv_v", lambda x: algopy.dot(W2, x[:2] * x[2:]) * x[0]),
-            ("dot_v_constv", lambda x: algopy.dot(x[:2] * x[2:], W2) * x[3]),
-            ("dot_constv_M", lambda x: algopy.sum(algopy.dot(W2, algopy.reshape(x * x, (2, 2))) * W2)),
-            # the same node as both arguments of a binary function (both adjoints accumulate into one buffer)
-            ("dot_same_node", lambda x: (lambda M: algopy.sum(algopy.dot(M, M) * W22))(algopy.reshape(x, (2, 2)) + A0)),
-            ("dot_vv_same_node", lambda x: (lambda v: algopy.dot(v, v))(x * x + 1.)),
-            ("outer_same_node", lambda x: (lambda v: algopy.sum(algopy.outer(v, v) * numpy.array([[1., 2., 3., 4.], [5., 6., 7., 8.], [9., 10., 11., 12.], [13., 14., 15., 17.]])))(x * x)),
-            ("solve_same_node", lambda x: (lambda M: algopy.sum(algopy.solve(M, M) * W22) + algopy.sum(M))(algopy.reshape(x, (2, 2)) + A0)),
-            ("div_same_node", lambda x: (lambda v: algopy.sum(v / v + v * v - v + (v - v)))(x * x + 1.)),
-            ("pow_same_node", lambda x: (lambda v: algopy.sum(v ** v))(x * x + 0.5)),
-        ]
-
-    P_ = progs()
+    P_ = adjoint_programs(algopy)
     n = max(n, 2 * len(P_))          # every program at least once plain and once with every intermediate consumed again
     for it in range(n):
         name, f = P_[it % len(P_)]
         D = rnd.choice([1, 2, 3, 4]); P = rnd.choice([1, 2])
+        if it < 2 * len(P_):
+            D = 3 + it // len(P_)           # the first pass (plain) at D = 3, the second (every intermediate consumed again) at D = 4
         x = numpy.array([[[rnd.uniform(0.3, 1.3) for _ in range(4)] for _ in range(P)] for _ in range(D)])
         x[1:] *= 0.7
         if name == "eig_values":
